@@ -8,5 +8,5 @@ pub fn run(ctx: &Ctx) {
     ctx.rule("histories biased to one endpoint id with up to many connections plus peers: register / client close (eof, error) / admin disconnect (by id, by connection id incl. stale ids) / sends in both directions; model = stack of open connections per id + sent_to sets; oracle after every settled step: traffic arrives on the model's top of stack, displaced connection reads SameEndpointIdConnected (V2) / Health (V1) exactly once, promoted one reads Healthy, EndpointGone exactly when the last connection of an id that had sent to the peer is gone, disconnect() result equals the model, final registry content equals the model; non-trivial = >=3 connections for one id with a promotion");
     ctx.assume("notices are asserted with queue room available (default queue depth 512, steps settle); connections shut down together by one bulk disconnect may or may not see intermediate promotion notices (unregister order among them is not specified)");
     let k = ctx.tier.pick(1, 10);
-    ctx.explore("history", ExploreOpts::new(4_000 * k).shrink(400), || history(Focus::Registry, 30), |h| run_history(h, Focus::Registry, "C06"));
+    ctx.explore("history", ExploreOpts::new(12_000 * k).shrink(400), || history(Focus::Registry, 30), |h| run_history(h, Focus::Registry, "C06"));
 }
